@@ -212,6 +212,12 @@ func c19run(c *evid.Ctx, r *gen.Rand, run int) {
 			mark := n.Conn.NumCaptured()
 			n.Conn.Inject(m, src)
 			if err := n.Quiesce(srv.PendingQueryOK); err != nil {
+				// The node does not settle after a datagram from a blocked source: if its API or
+				// its serve loop is stuck, that datagram had an effect.
+				cf := c01cfg{passive: passive}
+				if !apiReturns(c, n, desc+" after a datagram from blocked source "+src.String()) || !c01probe(c, n, cf, &gen.AddrAlloc{}, desc+" after a datagram from blocked source "+src.String()) {
+					return
+				}
 				c.Inconclusive(err.Error())
 				return
 			}
